@@ -32,6 +32,16 @@ CHECKS = {
   note=TRUST + " The discipline hypothesis (the compiler never truncates below an open cell without closing it) is checked per program (C04 verifier, scenario runs), not proved; name resolution of the real compiler is tied to the reference interpreter by differential runs only.",
   technique="Lean 4 proof (forward simulation to an abstract variable store) + replay of real capture/close events + constructed-oracle scenarios",
   ref="DESIGN.md section 5 C06"),
+ "C08": dict(
+  text="Lean 4 theorems on the exception-handler mechanism: unwind_contract (unwinding with handlers h::r leaves r, exactly h's frames, the first h.initStack slots unchanged plus the exception, pc at h's catch address; with no handler the run ends naming the value), unwind_selects_innermost, handler_lifo, balanced_region for every nesting depth, finally_flag, handlers_per_fiber; with C04's verify_sound every verified function leaves the handler stack as it found it on every path. Tie: every handler event of real runs replayed through the model; 20 constructed-oracle scenarios covering each clause of the property (2 GC modes); program differential against the Lean reference interpreter.",
+  note=TRUST + " Source-level 'finally exactly once on every exit' is proved on the models only; six open compiler/VM findings (F13, F14, F23, F25, F26, F27) are listed with replays and excluded from generated programs.",
+  technique="Lean 4 proof (handler-stack invariants, well-bracketed regions) + replay of real handler events + constructed-oracle scenarios",
+  ref="DESIGN.md section 5 C08"),
+ "C13": dict(
+  text="Lean 4 theorems on the byte-exact model of indexing, slicing and every string native: index_spec / range_spec for ALL lengths and ALL bit patterns (negative from the end, fractional/NaN -> ValueError, inf and 2^63 saturate -> IndexError), boundary_iff_prefix, slice_valid and all_ops_valid (every produced string is valid UTF-8), no_fault (no operation can panic or slice off a boundary), find_spec/find_least, iter_concat, char_count_spec, validate_iff_valid. Tie: exhaustive small-scope correspondence (all strings of <=2 / <=3 characters over a 1-2-3-4-byte alphabet x all boundary and special indices/ranges x every native x argument pool) on the real implementation, with an independent Python byte reference and UTF-8 oracle.",
+  note=TRUST + " Rust std str methods (find/replace/split/is_char_boundary) are assumed to meet their documentation; number<->text conversion inside to_num/String.from is C19's.",
+  technique="Lean 4 proof on a List UInt8 model (for all lengths and doubles) + exhaustive small-scope correspondence",
+  ref="DESIGN.md section 5 C13"),
  "C10": dict(
   text="Lean 4 theorems: guard_free_equiv (the unchecked value stack of stack.rs equals the bounds-checked one on every operation sequence in which no guard fires, and each guard matters), active_fiber_dual (the borrow-checked and the raw designation of the active fiber agree after every fiber operation), cfg_sites_accounted (every cfg-dependent site regenerated from the source is paired with a modelled operation). Tie: the harness is built in dev/release x feature switches and every program must produce identical traces in all builds.",
   note=TRUST + " What rustc does with unreachable_unchecked and unchecked pointer arithmetic is outside any model: covered only by the cross-build differential runs (partial).",
